@@ -141,7 +141,7 @@ class Sym(object):
 
 DEFAULT_W = dict(query=30, refit=12, threshold=10, calibrate=6, handout=8,
                  mutate=3, restart=7, clone=4, ambient=5, eigsh=3, set_nondata=4,
-                 failfit=3, fault=0, new=6, sweep=0, swap_pre=3, interrupt=0, mutate_store=0)
+                 failfit=3, fault=0, new=6, sweep=0, swap_pre=3, interrupt=0, mutate_store=0, alias=0)
 
 
 def gen_history(seed, tier, classes=None, weights=None, n_ops=(6, 16),
@@ -468,6 +468,17 @@ def gen_history(seed, tier, classes=None, weights=None, n_ops=(6, 16),
           # must preserve exactly that state
           ops.append(dict(op="restart", h=s.hid, how="inproc"))
           fit_op(s, other)
+    elif k == "alias":
+      cl, al, rp, val = r.choice([("ITML_Supervised", "num_constraints", "n_constraints", 17),
+                                  ("MMC_Supervised", "num_constraints", "n_constraints", 23),
+                                  ("LSML_Supervised", "num_constraints", "n_constraints", 11),
+                                  ("SDML_Supervised", "num_constraints", "n_constraints", 13),
+                                  ("ITML", "convergence_threshold", "tol", 0.02),
+                                  ("ITML_Supervised", "convergence_threshold", "tol", 0.03),
+                                  ("MMC", "convergence_threshold", "tol", 0.04),
+                                  ("RCA_Supervised", "num_chunks", "n_chunks", 7),
+                                  ("LMNN", "k", "n_neighbors", 2)])
+      ops.append(dict(op="alias_new", cls=cl, alias=al, repl=rp, value=val))
     elif k == "mutate_store":
       # the caller edits the array / list / table its estimators read through, in
       # place, and fits again
